@@ -979,7 +979,10 @@ def beat_period_log_rescale(tempo_params):
 def beat_period_standardized_scale(beat_period):
     beat_period_std = np.std(beat_period) * np.ones_like(beat_period)
     beat_period_mean = np.mean(beat_period) * np.ones_like(beat_period)
-    beat_period_standardized = (beat_period - beat_period_mean) / beat_period_std
+    # constant tempo: zero spread, every standardized value is 0
+    beat_period_standardized = (beat_period - beat_period_mean) / np.where(
+        beat_period_std > 0, beat_period_std, 1
+    )
     return [beat_period_standardized, beat_period_mean, beat_period_std]
 
 
